@@ -56,6 +56,20 @@ pub fn run(r: &mut Report) {
     r.case("rfc8410-ed25519-spki", json!({"der_prefix": "302a300506032b6570032100"}), "imports, same id as the raw key, re-exports unchanged",
            format!("{:?} reexport_identical={}", res.as_ref().map(|x| x.as_ref().map(|k| k.key_id().clone()).map_err(|e| e.to_string())), reexport.as_deref() == Some(&rfc8410[..])),
            matches!(&res, Ok(Ok(k)) if k.key_id() == key(1).key_id()) && reexport.as_deref() == Some(&rfc8410[..]));
+    // a key read from JSON always carries its intrinsic id, whatever "keyid" the document lists
+    for with_algs in [true, false] {
+        let k = key(1);
+        let mut v = serde_json::to_value(k.public()).unwrap();
+        v["keyid"] = json!("ab".repeat(32));
+        if !with_algs { if let Some(o) = v.as_object_mut() { o.remove("keyid_hash_algorithms"); } }
+        let parsed: Result<PublicKey, _> = serde_json::from_str(&v.to_string());
+        // the intrinsic id of the same material obtained without any JSON
+        let intrinsic = if with_algs { k.public().key_id().clone() }
+                        else { PublicKey::from_ed25519(k.public().as_bytes().to_vec()).unwrap().key_id().clone() };
+        let ok = match &parsed { Ok(p) => p.key_id() == &intrinsic, Err(_) => true };
+        r.case("json-listed-keyid-is-ignored", json!({"listed_keyid": "abab..", "keyid_hash_algorithms_present": with_algs}), "key id == intrinsic id (or document rejected)",
+               format!("{:?}", parsed.as_ref().map(|p| p.key_id().clone()).map_err(|e| e.to_string())), ok);
+    }
     // a layout key table entry filed under another identifier is never used under that identifier
     let owner = key(1);
     let ka = key(2);
